@@ -139,7 +139,7 @@ func c07Writes(c *core.Ctx, r *core.Reporter) {
 			if li == nil || e.Site == nil || li.Owner == nil {
 				return false
 			}
-			if !li.Holds(e.Site) {
+			if !li.HoldsExclusive(e.Site) {
 				return false
 			}
 			own := li.Owner.Obj().Name()
@@ -218,7 +218,7 @@ func c07Writes(c *core.Ctx, r *core.Reporter) {
 				note(key, w.In.Pos(), false, "write inside a function literal that runs only through sync.Once.Do on a Once field of the owner")
 				continue
 			}
-			if li := locks[fn]; li.Holds(w.In) && sameDomainLock(li, dom) {
+			if li := locks[fn]; li.HoldsExclusive(w.In) && sameDomainLock(li, dom) {
 				note(key, w.In.Pos(), false, "write dominated by "+li.Owner.Obj().Name()+"."+li.Field.Name()+".Lock() with deferred Unlock")
 				continue
 			}
@@ -443,6 +443,31 @@ func c07Lock(c *core.Ctx, r *core.Reporter) {
 			})
 			r.Check(bad == "", key, li.Lock.Pos(), "Lock() released by an explicit Unlock() on every path; no user code in the critical section",
 				"explicit Unlock() but user code ("+bad+") runs inside the critical section: if it panics the mutex stays held")
+		}
+		// sync mutexes are not re-entrant: nothing reachable from a call made while the lock is held may take the
+		// same mutex field again (same receiver in every instance found in this code base)
+		if li.Owner != nil && li.Field != nil {
+			rc := &core.ReachCfg{OnlyLib: c.IsLib}
+			if node := c.CallGraph().Nodes[fn]; node != nil {
+				for _, e := range node.Out {
+					if e.Site != nil && li.Holds(e.Site) && e.Callee.Func != nil && c.IsLib(e.Callee.Func) {
+						rc.Roots = append(rc.Roots, e.Callee.Func)
+					}
+				}
+			}
+			again := ""
+			if len(rc.Roots) > 0 {
+				reach := c.Reach(rc)
+				for g := range reach {
+					if lg := core.LockOf(g); lg != nil && lg.Owner == li.Owner && lg.Field == li.Field {
+						if w := core.Witness(rc.Parent, g); again == "" || w < again {
+							again = w
+						}
+					}
+				}
+			}
+			r.Check(again == "", fnKey(fn)+"/not-re-entrant", li.Lock.Pos(), "no function reachable from the critical section takes "+li.Owner.Obj().Name()+"."+li.Field.Name()+" again",
+				"while "+li.Owner.Obj().Name()+"."+li.Field.Name()+" is held, "+fnKey(fn)+" calls into code that locks the same mutex again ("+again+"): sync mutexes are not re-entrant, so the goroutine deadlocks with the lock held and every later request on the same object hangs")
 		}
 		// nothing user-supplied and no channel operation while a cache mutex is held
 		if li.Owner != nil && cacheDomain[li.Owner.Obj().Name()] {
